@@ -1,7 +1,9 @@
 import NurbsVerif.Lemmas.A51Loops
 
 /-!
-  A5.1 as coded against the index-by-index model, part 2: the output array `ctrlpts_new`.
+  A5.1 as coded against the index-by-index model, part 2: the output array `ctrlpts_new` (generic in the element
+  type `List β` and the blend `f`, see part 1; the point branch and the list-of-rows branch are instances:
+  `Lemmas/A51LoopsPts.lean`, `Lemmas/A51LoopsRows.lean`).
 
   Bookkeeping: `CpInv n M W c` says that the work array `c` has `n` slots and every slot whose index is in the
   set `W` ("already written") holds the value `M x` the index model assigns to it.  Every assignment
@@ -69,45 +71,51 @@ theorem cpInv_total {n : Nat} {M : Nat → α} {W : Nat → Prop} {c : List α} 
 end generic
 
 section
-variable {K : Type} [Add K] [Sub K] [Mul K] [Div K] [One K]
+variable {β : Type} (f : Nat → Nat → List β → List β → List β)
 
-/-- the value the index model assigns to slot `i` (the body of `Geomdl.knotInsertion`) -/
-def insIdx (p : Nat) (U : Nat → K) (P : List (List K)) (u : K) (r s k : Nat) (i : Nat) : List K :=
+/-- the model's `temp` array at insertion level `j` (`insTempAt`, `insTempAtRows`) -/
+def gTempAt (P : List (List β)) (k p s : Nat) : Nat → List (List β)
+  | 0 => insTempInit P k p s
+  | j+1 => gStep f k p s (j+1) (gTempAt P k p s j)
+
+/-- the value the index model assigns to slot `i` (the body of `Geomdl.knotInsertion` / `knotInsertionRows`) -/
+def insIdx (p : Nat) (P : List (List β)) (r s k : Nat) (i : Nat) : List β :=
   if i + p ≤ k then ptsGet P i
-  else if i + p ≤ k + r then ptsGet (insTempAt U u P k p s (i + p - k)) 0
-  else if i + s < k then ptsGet (insTempAt U u P k p s r) (i + p - k - r)
-  else if i + s < k + r then ptsGet (insTempAt U u P k p s (k + r - s - i)) (p - (k + r - s - i) - s)
+  else if i + p ≤ k + r then ptsGet (gTempAt f P k p s (i + p - k)) 0
+  else if i + s < k then ptsGet (gTempAt f P k p s r) (i + p - k - r)
+  else if i + s < k + r then ptsGet (gTempAt f P k p s (k + r - s - i)) (p - (k + r - s - i) - s)
   else ptsGet P (i - r)
 
-theorem knotInsertion_eq_map (p : Nat) (U : Nat → K) (P : List (List K)) (u : K) (r s k : Nat) :
-    knotInsertion p U P u r s k = (List.range (P.length + r)).map (insIdx p U P u r s k) := rfl
+/-- the index-form model, generic -/
+def gModel (p : Nat) (P : List (List β)) (r s k : Nat) : List (List β) :=
+  (List.range (P.length + r)).map (insIdx f p P r s k)
 
 /-- `ctrlpts_new[i] = ctrlpts[i]` for `i ≤ k - p` -/
-theorem insIdx_head (p : Nat) (U : Nat → K) (P : List (List K)) (u : K) (r s k i : Nat) (hi : i + p ≤ k) :
-    ptsGet P i = insIdx p U P u r s k i := by
+theorem insIdx_head (p : Nat) (P : List (List β)) (r s k i : Nat) (hi : i + p ≤ k) :
+    ptsGet P i = insIdx f p P r s k i := by
   unfold insIdx; rw [if_pos hi]
 
 /-- `ctrlpts_new[i + num] = ctrlpts[i]` for `i ≥ k - s` -/
-theorem insIdx_tail (p : Nat) (U : Nat → K) (P : List (List K)) (u : K) (r s k i : Nat) (hrs : r + s ≤ p)
-    (hi : k ≤ i + s) : ptsGet P i = insIdx p U P u r s k (i + r) := by
+theorem insIdx_tail (p : Nat) (P : List (List β)) (r s k i : Nat) (hrs : r + s ≤ p)
+    (hi : k ≤ i + s) : ptsGet P i = insIdx f p P r s k (i + r) := by
   unfold insIdx
   by_cases h1 : i + r + p ≤ k
   · rw [if_pos h1]; congr 1; omega
   · rw [if_neg h1, if_neg (by omega), if_neg (by omega), if_neg (by omega)]; congr 1; omega
 
 /-- `ctrlpts_new[L] = temp[0]` in pass `j` -/
-theorem insIdx_left (p : Nat) (U : Nat → K) (P : List (List K)) (u : K) (r s k j : Nat) (hpk : p ≤ k)
+theorem insIdx_left (p : Nat) (P : List (List β)) (r s k j : Nat) (hpk : p ≤ k)
     (hj1 : 1 ≤ j) (hjr : j ≤ r) :
-    ptsGet (insTempAt U u P k p s j) 0 = insIdx p U P u r s k (k - p + j) := by
+    ptsGet (gTempAt f P k p s j) 0 = insIdx f p P r s k (k - p + j) := by
   unfold insIdx
   rw [if_neg (by omega), if_pos (by omega)]
   have e : k - p + j + p - k = j := by omega
   rw [e]
 
 /-- `ctrlpts_new[k + num - j - s] = temp[p - j - s]` in pass `j` -/
-theorem insIdx_right (p : Nat) (U : Nat → K) (P : List (List K)) (u : K) (r s k j : Nat) (hpk : p ≤ k)
+theorem insIdx_right (p : Nat) (P : List (List β)) (r s k j : Nat) (hpk : p ≤ k)
     (hrs : r + s ≤ p) (hj1 : 1 ≤ j) (hjr : j ≤ r) :
-    ptsGet (insTempAt U u P k p s j) (p - j - s) = insIdx p U P u r s k (k + r - j - s) := by
+    ptsGet (gTempAt f P k p s j) (p - j - s) = insIdx f p P r s k (k + r - j - s) := by
   unfold insIdx
   rw [if_neg (by omega)]
   by_cases h2 : k + r - j - s + p ≤ k + r
@@ -120,9 +128,9 @@ theorem insIdx_right (p : Nat) (U : Nat → K) (P : List (List K)) (u : K) (r s 
     rw [e1]
 
 /-- `ctrlpts_new[i] = temp[i - L]` in the last loop -/
-theorem insIdx_mid (p : Nat) (U : Nat → K) (P : List (List K)) (u : K) (r s k i : Nat) (hpk : p ≤ k)
+theorem insIdx_mid (p : Nat) (P : List (List β)) (r s k i : Nat) (hpk : p ≤ k)
     (h1 : k + r + 1 ≤ i + p) (h2 : i + s < k) :
-    ptsGet (insTempAt U u P k p s r) (i - (k - p + r)) = insIdx p U P u r s k i := by
+    ptsGet (gTempAt f P k p s r) (i - (k - p + r)) = insIdx f p P r s k i := by
   unfold insIdx
   rw [if_neg (by omega), if_neg (by omega), if_pos h2]
   have e : i - (k - p + r) = i + p - k - r := by omega
@@ -133,14 +141,14 @@ def WJ (p r s k J : Nat) (x : Nat) : Prop :=
   x + p ≤ k ∨ k + r ≤ x + s ∨ (k + 1 ≤ x + p ∧ x + p ≤ k + J) ∨ (x + s + 1 ≤ k + r ∧ k + r ≤ x + s + J)
 
 /-- after the two copy loops -/
-theorem cpInv_init (p : Nat) (U : Nat → K) (P : List (List K)) (u : K) (r s k : Nat) (hpk : p ≤ k) (hrs : r + s ≤ p) :
-    CpInv (P.length + r) (insIdx p U P u r s k) (WJ p r s k 0) (a51Init p P r s k).cp := by
-  have h0 := cpInv_replicate (P.length + r) (insIdx p U P u r s k) ([] : List K)
-  have h1 := cpInv_foldl (M := insIdx p U P u r s k) (fun i => i) (fun i => ptsGet P i) (List.range (k + 1 - p))
-    (fun i hi => insIdx_head p U P u r s k i (by have := List.mem_range.mp hi; omega)) h0
-  have h2 := cpInv_foldl (M := insIdx p U P u r s k) (fun i => i + r) (fun i => ptsGet P i)
+theorem cpInv_init (p : Nat) (P : List (List β)) (r s k : Nat) (hpk : p ≤ k) (hrs : r + s ≤ p) :
+    CpInv (P.length + r) (insIdx f p P r s k) (WJ p r s k 0) (a51Init p P r s k).cp := by
+  have h0 := cpInv_replicate (P.length + r) (insIdx f p P r s k) ([] : List β)
+  have h1 := cpInv_foldl (M := insIdx f p P r s k) (fun i => i) (fun i => ptsGet P i) (List.range (k + 1 - p))
+    (fun i hi => insIdx_head f p P r s k i (by have := List.mem_range.mp hi; omega)) h0
+  have h2 := cpInv_foldl (M := insIdx f p P r s k) (fun i => i + r) (fun i => ptsGet P i)
     (List.range' (k - s) (P.length - (k - s)))
-    (fun i hi => insIdx_tail p U P u r s k i hrs (by have := List.mem_range'_1.mp hi; omega)) h1
+    (fun i hi => insIdx_tail f p P r s k i hrs (by have := List.mem_range'_1.mp hi; omega)) h1
   refine cpInv_mono (fun x hx hW => ?_) h2
   rcases hW with h | h | h | h
   · exact Or.inl (Or.inr ⟨x, List.mem_range.mpr (by omega), rfl⟩)
@@ -149,35 +157,35 @@ theorem cpInv_init (p : Nat) (U : Nat → K) (P : List (List K)) (u : K) (r s k 
   · omega
 
 /-- the state of the code after `J` passes of `for j in range(1, num + 1)` -/
-def stateAt (p : Nat) (U : Nat → K) (P : List (List K)) (u : K) (r s k J : Nat) : A51St K :=
-  (List.range' 1 J).foldl (a51Outer p U u r s k) (a51Init p P r s k)
+def stateAt (p : Nat) (P : List (List β)) (r s k J : Nat) : A51St β :=
+  (List.range' 1 J).foldl (gOuter f p r s k) (a51Init p P r s k)
 
 /-- **loop invariant of the insertion loop**: after `J ≤ num` passes `temp` reads like the model's level `J`
     and the slots of `WJ … J` hold their final values -/
-theorem outer_inv (p : Nat) (U : Nat → K) (P : List (List K)) (u : K) (r s k : Nat) (hpk : p ≤ k) (hrs : r + s ≤ p) :
+theorem outer_inv (p : Nat) (P : List (List β)) (r s k : Nat) (hpk : p ≤ k) (hrs : r + s ≤ p) :
     ∀ J, J ≤ r →
-      TempRel p (stateAt p U P u r s k J).temp (insTempAt U u P k p s J) ∧
-      CpInv (P.length + r) (insIdx p U P u r s k) (WJ p r s k J) (stateAt p U P u r s k J).cp := by
+      TempRel p (stateAt f p P r s k J).temp (gTempAt f P k p s J) ∧
+      CpInv (P.length + r) (insIdx f p P r s k) (WJ p r s k J) (stateAt f p P r s k J).cp := by
   intro J
   induction J with
   | zero =>
     intro _
-    exact ⟨tempRel_init p P r s k (by omega), cpInv_init p U P u r s k hpk hrs⟩
+    exact ⟨tempRel_init p P r s k (by omega), cpInv_init f p P r s k hpk hrs⟩
   | succ J ih =>
     intro hJ
     obtain ⟨ht, hc⟩ := ih (by omega)
-    have hst : stateAt p U P u r s k (J + 1) = a51Outer p U u r s k (stateAt p U P u r s k J) (J + 1) := by
+    have hst : stateAt f p P r s k (J + 1) = gOuter f p r s k (stateAt f p P r s k J) (J + 1) := by
       unfold stateAt
       rw [List.range'_1_concat, List.foldl_append, Nat.add_comm 1 J]; rfl
-    have ht' : TempRel p (a51Outer p U u r s k (stateAt p U P u r s k J) (J + 1)).temp (insTempAt U u P k p s (J + 1)) :=
-      tempRel_step U u k p s (J + 1) _ _ (by omega) ht
+    have ht' : TempRel p (gOuter f p r s k (stateAt f p P r s k J) (J + 1)).temp (gTempAt f P k p s (J + 1)) :=
+      tempRel_step f k p s (J + 1) _ _ (by omega) ht
     rw [hst]
     refine ⟨ht', ?_⟩
-    have hL := cpInv_set (k - p + (J + 1)) (ptsGet (a51Outer p U u r s k (stateAt p U P u r s k J) (J + 1)).temp 0)
-      ((ht'.2 0).trans (insIdx_left p U P u r s k (J + 1) hpk (by omega) (by omega))) hc
+    have hL := cpInv_set (k - p + (J + 1)) (ptsGet (gOuter f p r s k (stateAt f p P r s k J) (J + 1)).temp 0)
+      ((ht'.2 0).trans (insIdx_left f p P r s k (J + 1) hpk (by omega) (by omega))) hc
     have hR := cpInv_set (k + r - (J + 1) - s)
-      (ptsGet (a51Outer p U u r s k (stateAt p U P u r s k J) (J + 1)).temp (p - (J + 1) - s))
-      ((ht'.2 _).trans (insIdx_right p U P u r s k (J + 1) hpk hrs (by omega) (by omega))) hL
+      (ptsGet (gOuter f p r s k (stateAt f p P r s k J) (J + 1)).temp (p - (J + 1) - s))
+      ((ht'.2 _).trans (insIdx_right f p P r s k (J + 1) hpk hrs (by omega) (by omega))) hL
     refine cpInv_mono (fun x hx hW => ?_) hR
     unfold WJ at hW ⊢
     by_cases h1 : x = k + r - (J + 1) - s
@@ -187,19 +195,20 @@ theorem outer_inv (p : Nat) (U : Nat → K) (P : List (List K)) (u : K) (r s k :
       · refine Or.inl (Or.inl ?_)
         omega
 
-/-- **A5.1 as coded = the index-by-index model** under the guard `p ≤ k`, `num + s ≤ p` (no negative index) -/
-theorem knotInsertionA51_eq (p : Nat) (U : Nat → K) (P : List (List K)) (u : K) (r s k : Nat)
+/-- **the loops = the index-by-index form**, for every element type and blend, under the guard `p ≤ k`,
+    `num + s ≤ p` (no negative index) -/
+theorem gA51_eq (p : Nat) (P : List (List β)) (r s k : Nat)
     (hpk : p ≤ k) (hrs : r + s ≤ p) :
-    knotInsertionA51 p U P u r s k = knotInsertion p U P u r s k := by
-  obtain ⟨ht, hc⟩ := outer_inv p U P u r s k hpk hrs r (Nat.le_refl r)
-  have hfin := cpInv_foldl (M := insIdx p U P u r s k) (fun i => i)
-    (fun i => ptsGet (stateAt p U P u r s k r).temp (i - (k - p + r)))
+    gA51 f p P r s k = gModel f p P r s k := by
+  obtain ⟨ht, hc⟩ := outer_inv f p P r s k hpk hrs r (Nat.le_refl r)
+  have hfin := cpInv_foldl (M := insIdx f p P r s k) (fun i => i)
+    (fun i => ptsGet (stateAt f p P r s k r).temp (i - (k - p + r)))
     (List.range' (k - p + r + 1) (k - s - (k - p + r + 1)))
     (fun i hi => by
       have := List.mem_range'_1.mp hi
       rw [ht.2]
-      exact insIdx_mid p U P u r s k i hpk (by omega) (by omega)) hc
-  rw [knotInsertion_eq_map]
+      exact insIdx_mid f p P r s k i hpk (by omega) (by omega)) hc
+  unfold gModel
   refine cpInv_total (fun x hx => ?_) hfin
   unfold WJ
   by_cases hm : k + r + 1 ≤ x + p ∧ x + s < k
